@@ -37,7 +37,7 @@ RULE = ('References are generated structurally as [stage<N>.]head[/path]:method,
         'round trips, DataReference/ComponentIdentifier relative vs absolute); layer fn: every (reference, context) '
         'through the 5 classification/expansion functions; layer manifest: Manifest.top_level_folders of every context; '
         'layer doc: per (context, owner stage) FlowIR documents with one consumer component per reference, paths '
-        '{none, b/f.txt, sub/f.txt, run-%(v)s/f.txt} x methods {ref, copy} (quick) / 7 paths x all 8 methods '
+        '{none, b/f.txt, sub/f.txt, run-%(v)s/f.txt} x methods {ref, copy} (quick) / 6 paths x all 8 methods '
         '(thorough), the variables v and v.w defined in the document, variable heads '
         'left out, references the statement does not classify kept only without path. A case is non-trivial when the '
         'statement fixes its class (component / not-a-component) or it has a stage prefix or a path; distinct = '
@@ -74,7 +74,7 @@ VAR_HEADS = ['%(v)s', '%(v.w)s']
 PATHS_Q = [None, 'f.txt', 'd/f.txt', 'd/e/f.txt', 'd.e/f-1.txt', 'b/f.txt', 'sub/f.txt', 'run-%(v)s/f.txt', 'frames[3]']
 PATHS_T = PATHS_Q + ['*.txt', 'data/f.txt', 'stage1.A/f.txt', '%(v.w)s.txt', 'd/%(v)s[0]/f.txt']
 DOC_PATHS_Q = [None, 'b/f.txt', 'sub/f.txt', 'run-%(v)s/f.txt']
-DOC_PATHS_T = [None, 'f.txt', 'b/f.txt', 'sub/f.txt', 'd/e/f.txt', 'run-%(v)s/f.txt', '%(v.w)s.txt']
+DOC_PATHS_T = [None, 'b/f.txt', 'sub/f.txt', 'd/e/f.txt', 'run-%(v)s/f.txt', '%(v.w)s.txt']
 DOC_METHODS_Q = ['ref', 'copy']
 
 KNOWN_SETS = [
@@ -603,8 +603,18 @@ def run_doc(col, rec, ctx, refs_by_stage, scratch):
             col.outcome('doc:%s:accepted' % cls)
 
 
+_SCRATCH_PARENT = None   # set by run() before the fork pool starts: the parent removes it even if workers are killed
+
+
 def worker_doc(col, item, tier, seed):
     from verif.gen.pkg import scratch_dir
+    if _SCRATCH_PARENT is not None and os.path.isdir(_SCRATCH_PARENT):
+        import contextlib
+        import tempfile
+
+        @contextlib.contextmanager
+        def scratch_dir(prefix):  # noqa: F811 - same contract, but below the run's own directory
+            yield tempfile.mkdtemp(prefix=prefix, dir=_SCRATCH_PARENT)
     ci = item
     thorough = tier == 'thorough'
     ctx = contexts(thorough)[ci]
@@ -639,7 +649,14 @@ def run(ctx):
     chunk = max(1, len(refs) // (ctx.jobs * 2) + 1)
     ctx.pmap('verif.props.c09', 'worker_str', [(i, min(len(refs), i + chunk)) for i in range(0, len(refs), chunk)])
     ctx.pmap('verif.props.c09', 'worker_fn', list(range(len(ctxs))))
-    ctx.pmap('verif.props.c09', 'worker_doc', list(range(len(ctxs))), maxtasksperchild=4)
+    global _SCRATCH_PARENT
+    from verif.gen.pkg import scratch_dir
+    with scratch_dir('c09-run-') as parent:
+        _SCRATCH_PARENT = parent
+        try:
+            ctx.pmap('verif.props.c09', 'worker_doc', list(range(len(ctxs))), maxtasksperchild=4)
+        finally:
+            _SCRATCH_PARENT = None
 
 
 def replay(ctx, case):
